@@ -828,7 +828,6 @@ func (g *GateResult) atomTruth(a *atom, op token.Token, v int64) int {
 	return 0
 }
 
-
 // predicate analyses a one-argument boolean helper `func(n int) bool` of the module.
 func (g *GateResult) predicate(f *ssa.Function) *predSets {
 	if g.preds == nil {
